@@ -282,7 +282,8 @@ class PageRenderer:
             header_rtf = self.encoding_service.encode_column_header(
                 header_copy.text, header_copy, document.rtf_page.col_width
             )
-            header_elements.extend(header_rtf)
+            if header_rtf:  # None when there is nothing to render for this header
+                header_elements.extend(header_rtf)
 
         return header_elements
 
